@@ -467,6 +467,25 @@ UNIT["fun"] += [V("recursive integer function {N}(arg1) result(res)"), V("intege
                 V("elemental function {N}(arg1)"), V("character*8 function {N}(arg1)"), V("class(t1) function {N}(arg1)"),
                 V("integer(kind=4) recursive function {N}()")]
 MODPROC += [V("module procedure :: p5", std=8), V("procedure p6, p7"), V("procedure :: p8, p9", std=8)]
+# every combination of prefix / dummy-argument list (absent, empty, given) / suffix on the unit headers
+UNIT["sub"] += [V("subroutine {N}() bind(c)"), V("subroutine {N}() bind(c, name='s_{N}')"), V("pure subroutine {N}()"), V("recursive subroutine {N}"),
+                V("elemental subroutine {N}(arg1)"), V("module subroutine {N}(arg1)", std=99)]
+UNIT["fun"] += [V("function {N}() bind(c)"), V("function {N}() result(res) bind(c, name='f_{N}')"), V("pure function {N}()"),
+                V("real function {N}() result(res)"), V("elemental integer(kind=8) function {N}(arg1) result(res)"),
+                V("function {N}(arg1, arg2) bind(c, name='f_{N}') result(res)", std=99)]   # printed with RESULT first: token order not kept (observation)
+# long character literals that hold the characters the reader gives a meaning to (always used, like the core variants)
+_N_S, _N_D = len(SIMPLE), len(DECL)
+SIMPLE += [V("s = 'a long literal with an ! inside it, then a & and a ; and a second ! further on in the text'", one=True),
+           V("s = \"it's a long one as well: 'quoted', with % and ( and a lone ) before the end of it all\"", one=True),
+           V("s = (d // 'a\\') // 'b\\\\' // f", one=True),
+           V("call sub1('50%', \"x;y\", 'p&q', 'r!s')", one=True),
+           V("x = f(g(h(a%b), 'c%d'), obj%arr(i)%c)"),
+           V("x = f(f(f(1, -1.0), -1.0e0), +2.5d0)", one=True)]
+ALWAYS = {}
+DECL += [V("real, codimension[2, min(n, m):*] :: co9", std=8), V("character(len=*), parameter :: long1 = 'a ! b & c ; d '' e \" f % g ( h ) i'", one=True, blk=True)]
+ALWAYS["s"] = set(range(_N_S + 1, len(SIMPLE) + 1))
+ALWAYS["decl"] = set(range(_N_D + 1, len(DECL) + 1))
+
 
 
 def table(kind):
@@ -486,8 +505,10 @@ def tla_split(tab, xs):
     """Core ids as a literal set, extended ids through the tier's stride filter."""
     n = CORE.get(next((k for k, t in (("s", SIMPLE), ("decl", DECL), ("use", USE), ("format", FORMAT), ("comp", COMP),
                                       ("tbind", TBIND), ("enumr", ENUMR)) if t is tab), None), 10 ** 9)
-    core = [x for x in xs if x <= n]
-    ext = [x for x in xs if x > n]
+    kind = next((k for k, t in (("s", SIMPLE), ("decl", DECL), ("use", USE), ("format", FORMAT), ("comp", COMP), ("tbind", TBIND), ("enumr", ENUMR)) if t is tab), None)
+    always = ALWAYS.get(kind, set())
+    core = [x for x in xs if x <= n or x in always]
+    ext = [x for x in xs if x > n and x not in always]
     if not ext:
         return tla_set(core)
     return tla_set(core) + " \\cup Ext(" + tla_set(ext) + ")"
